@@ -4,6 +4,7 @@
 #[allow(dead_code)]
 #[path = "../../../harness/vh/src/codec.rs"]
 mod codec;
+mod errors;
 mod facades;
 mod formatter;
 mod intoiter;
@@ -27,6 +28,7 @@ fn main() {
         "x05" => options::run(&cfg),
         "x07" => intoiter::run(&cfg),
         "x08" => facades::run(&cfg),
+        "x09" => errors::run(&cfg),
         other => {
             eprintln!("unknown command {}", other);
             std::process::exit(2);
